@@ -849,8 +849,13 @@ func hasOnlyPhraseTest(env envs.Environment, hays []string, pins []string) types
 type decimalTest func(value decimal.Decimal, test1 decimal.Decimal, test2 decimal.Decimal) bool
 
 func testNumber(env envs.Environment, str *types.XText, testNum1 *types.XNumber, testNum2 *types.XNumber, testFunc decimalTest) types.XValue {
-	// create a number finding regex based on current environment
-	pattern := regexp.MustCompile(fmt.Sprintf(`[-+]?([\pN\%[1]s]+(\%[2]s[\pN]+)?|(\W|^)\%[2]s[\pN]+)`, env.NumberFormat().DigitGroupingSymbol, env.NumberFormat().DecimalSymbol))
+	// create a number finding regex based on current environment - the symbols can be any text (e.g. a non-breaking
+	// space) so they're quoted rather than backslash escaped
+	digit := `\pN`
+	if env.NumberFormat().DigitGroupingSymbol != "" {
+		digit = `(?:\pN|` + regexp.QuoteMeta(env.NumberFormat().DigitGroupingSymbol) + `)`
+	}
+	pattern := regexp.MustCompile(fmt.Sprintf(`[-+]?(%[1]s+(%[2]s[\pN]+)?|(\W|^)%[2]s[\pN]+)`, digit, regexp.QuoteMeta(env.NumberFormat().DecimalSymbol)))
 
 	// look for number like things in the input and use the first one that we can actually parse
 	for _, value := range pattern.FindAllString(str.Native(), -1) {
